@@ -108,12 +108,14 @@ class MemFile(io.StringIO):
 
 
 LAST_STORE: dict = {}
+CURRENT_OPEN = None
+HARNESS_FILE_NAMES = {'out.json', 'out1.json', 'out2.json'}
 
 
 def make_open(store: dict, existing: Optional[Dict[str, str]] = None):
     """existing: content that is already at a path when the session starts (an earlier session's log).  Mode 'w' truncates it,
     mode 'a' keeps it - as a real file system does."""
-    global LAST_STORE
+    global LAST_STORE, CURRENT_OPEN
     LAST_STORE = store
 
     def _open(path, mode='r', *a, **k):
@@ -126,6 +128,7 @@ def make_open(store: dict, existing: Optional[Dict[str, str]] = None):
         if 'a' in mode and old is not None:
             io.StringIO.write(f, old)
         return f
+    CURRENT_OPEN = _open
     return _open
 
 
@@ -221,11 +224,23 @@ def execute(setup: Callable[[prims.Sched], Any], policy: Optional[prims.Policy] 
     s = prims.Sched(policy, horizon=horizon, all_visible=all_visible, record_ops=record_ops)
     prims.CUR = s
     prims.reset_import_time_objects()
+    # however the code under test opens its output file (open(path), path.open(), Path(path).open(), io.open) it must reach the
+    # in-memory file of this execution, never the real file system
+    import builtins
+    import pathlib
+    orig_path_open, orig_io_open = pathlib.Path.open, io.open
+
+    def path_open(self, mode='r', *a, **k):
+        if self.name in HARNESS_FILE_NAMES and CURRENT_OPEN is not None and any(ch in mode for ch in 'wax'):
+            return CURRENT_OPEN(str(self), mode)
+        return orig_path_open(self, mode, *a, **k)
+    pathlib.Path.open = path_open
     try:
         collect = setup(s)
         s.run()
     finally:
         prims.CUR = None
+        pathlib.Path.open = orig_path_open
     bad = prims.FALLTHROUGH - prims.FALLTHROUGH_OK
     if bad:
         raise prims.InternalError(f'code under test reached for primitives that are not modelled: {sorted(bad)}')
